@@ -11,6 +11,25 @@ from .prims import ok, err, some, NONE, RESULT, OPTION, norm_adt, deref
 
 ENC = l1.ENC
 DEC = l1.DEC
+def _len_cap():
+    # artificial bound on symbolic lengths: far below usize::MAX so that sums of a few lengths do not overflow, yet above the
+    # widest head class that can occur (8-byte heads on 64-bit targets, 4-byte heads on 32-bit ones)
+    from . import absint as _a
+    return _a.len_cap()
+
+
+class _LenRange(tuple):
+    pass
+
+
+def len_range():
+    return ((0, _len_cap()),)
+
+
+def item_len_range():
+    return ((1, _len_cap()),)
+
+
 LEN_RANGE = ((0, 1 << 40),)
 ITEM_LEN_RANGE = ((1, 1 << 40),)     # the encoding of a complete data item (what Encode / CborLen of a value stand for) has at least one byte
 
@@ -142,7 +161,7 @@ def len_leaf(m, cfg, f, args, t):
         ty = f.get('impl_self', ty)
     nm = 'LEN(%s)' % vname(m, st, args[0])
     if nm not in st.ranges:
-        st.ranges[nm] = ITEM_LEN_RANGE
+        st.ranges[nm] = item_len_range()
         st.symty[nm] = 'usize'
     st.extra['lens'] = st.extra.get('lens', ()) + ((nm, ty),)
     return Int.sym(nm)
@@ -198,7 +217,7 @@ def coll_len(m, cfg, f, args, t):
         return Int.const(len(tv.elems))
     nm = 'len(%s)' % coll_name(m, st, v)
     if nm not in st.ranges:
-        st.ranges[nm] = LEN_RANGE
+        st.ranges[nm] = len_range()
         st.symty[nm] = 'usize'
     return Int.sym(nm)
 
@@ -288,7 +307,7 @@ def iter_sum(m, cfg, f, args, t):
     def post(mm, c, v):
         nm = 'SUM(%s)' % coll.name
         if nm not in c.st.ranges:
-            c.st.ranges[nm] = LEN_RANGE
+            c.st.ranges[nm] = len_range()
             c.st.symty[nm] = 'usize'
         c.st.extra['sums'] = c.st.extra.get('sums', ()) + ((nm, v),)
         return Int.sym(nm)
@@ -386,7 +405,7 @@ def codec_leaf(m, cfg, f, args, t):
     if name.startswith('len_'):
         nm = 'LEN(%s)' % vname(m, st, args[0])
         if nm not in st.ranges:
-            st.ranges[nm] = ITEM_LEN_RANGE
+            st.ranges[nm] = item_len_range()
             st.symty[nm] = 'usize'
         return Int.sym(nm)
     if name.startswith('is_nil_'):
@@ -416,7 +435,7 @@ class L2Machine(Machine):
         self.leaf_crates = set(leaf_crates)
         self.root_self = root_self
         self.patterns = PATTERNS
-        self.max_len = 1 << 40
+        self.max_len = _len_cap()
 
     def is_leaf_callee(self, f):
         """calls into other user (harness) types are leaves: their own expansion is analysed as its own root"""
@@ -578,7 +597,7 @@ def len_overrides():
 def slice_len_of(m, st, name):
     nm = 'len(%s)' % name
     if nm not in st.ranges:
-        st.ranges[nm] = LEN_RANGE
+        st.ranges[nm] = len_range()
         st.symty[nm] = 'usize'
     return Int.sym(nm)
 
@@ -598,7 +617,7 @@ def items_len(m, st, events):
             nm = 'SUM(%s)' % coll
             notes.append((nm, total))
             if nm not in st.ranges:
-                st.ranges[nm] = LEN_RANGE
+                st.ranges[nm] = len_range()
                 st.symty[nm] = 'usize'
             total = lin_add(saved, Int.sym(nm), 1)
             continue
@@ -638,7 +657,7 @@ def items_len(m, st, events):
         elif k == 'ENC':
             nm = 'LEN(%s)' % it[2]
             if nm not in st.ranges:
-                st.ranges[nm] = ITEM_LEN_RANGE
+                st.ranges[nm] = item_len_range()
                 st.symty[nm] = 'usize'
             total = lin_add(total, Int.sym(nm), 1)
         else:
